@@ -74,8 +74,10 @@ func (d *decoder) processHalftoneRegion(hdr *segmentHeader, data []byte) error {
 		hbpp = 1
 	}
 
-	// validate grid dimensions to prevent overflow in loops and allocations
-	if _, err := checkedMul(hgw, hgh); err != nil {
+	// validate grid dimensions to prevent overflow in loops and allocations;
+	// the per-row loops below run hgh times even for an empty grid (hgw == 0),
+	// so each dimension must be bounded, not only the product
+	if err := checkBitmapSize(hgw, hgh); err != nil {
 		return fmt.Errorf("halftone grid: %w", err)
 	}
 
